@@ -76,3 +76,44 @@ Definition legal_value (p : prop) : bool :=
   | KTopicAlias => negb (N.eqb (pnum p) 0)
   | _ => true
   end.
+
+(* Section 2.1.2 / 2.1.3, tables 2-1 and 2-2: the first byte of a packet a CLIENT may send.
+   Type in the high nibble; flags fixed per type except PUBLISH (DUP, QoS, RETAIN: QoS 3 is malformed and
+   DUP must be 0 at QoS 0 [MQTT-3.3.1-2]).  AUTH (15) is legal for a client but never sent by this one. *)
+Definition spec_client_first_byte (h : N) : bool :=
+  let typ := h / 16 in
+  let fl := h mod 16 in
+  if N.eqb typ 3 then
+    let q := (fl / 2) mod 4 in
+    negb (N.eqb q 3) && negb (N.eqb q 0 && N.testbit fl 3)
+  else if N.eqb typ 6 || N.eqb typ 8 || N.eqb typ 10 then N.eqb fl 2
+  else if N.eqb typ 1 || N.eqb typ 4 || N.eqb typ 5 || N.eqb typ 7 || N.eqb typ 12 || N.eqb typ 14 || N.eqb typ 15
+  then N.eqb fl 0
+  else false.
+
+(* Section 2.1.4: one control packet = first byte, Remaining Length as a variable byte integer, then exactly
+   that many bytes.  take_frame splits the first packet off a stream (None: incomplete or malformed length). *)
+Definition take_frame (l : bytes) : option (bytes * bytes) :=
+  match l with
+  | [] => None
+  | h :: t =>
+      match varint_read t with
+      | VOk n body =>
+          if lenN body <? n then None
+          else let total := 1 + (lenN t - lenN body) + n in Some (takeN total l, dropN total l)
+      | _ => None
+      end
+  end.
+
+Fixpoint split_frames (fuel : nat) (l : bytes) : option (list bytes) :=
+  match fuel with
+  | O => None
+  | S f =>
+      match l with
+      | [] => Some []
+      | _ => match take_frame l with
+             | Some (p, rest) => match split_frames f rest with Some ps => Some (p :: ps) | None => None end
+             | None => None
+             end
+      end
+  end.
